@@ -27,13 +27,14 @@ func main() {
 	twin.Rekey = rekey
 	twin.RunAll(r, nil, func(c twin.Case, n, i twin.Obs) string { return c.Name }, opt, par.Opts{})
 	r.Set("exhaustive", true)
-	r.Set("rule", "S: hierarchy depth 2-3 x receiver kind of B.M x embedding form (value, pointer, interface field) x shadowing (none, value, pointer) x holder (value, pointer) x 18 use forms; N: nil interface / typed nil forms; H: interpreted S handed to fmt, errors, sort, io consumers x receiver kind x holder; non-trivial = output lines not all equal")
+	r.Set("rule", "S: hierarchy depth 2-3 x receiver kind of B.M x embedding form (value, pointer, interface field) x shadowing (none, value, pointer) x holder (value, pointer) x 18 use forms; D: shadowing with a different signature (none/same/int result/extra parameter) x receiver x depth x holder x 9 assertion / type-switch / call forms against three script interfaces, and 5 ambiguity / depth-resolution shapes; N: nil interface / typed nil forms; H: interpreted S handed to fmt, errors, sort, io consumers x receiver kind x holder; non-trivial = output lines not all equal")
 	r.Finish()
 }
 
-var simplest = map[string]string{"d": "2", "rB": "B", "emb": "B", "sh": "-", "emb2": "T", "h": "val", "recv": "S"}
+var simplest = map[string]string{"d": "2", "rB": "B", "emb": "B", "sh": "-", "emb2": "T", "h": "val", "recv": "S", "embB": "B", "shRecv": "T", "depth": "2"}
 
-// rekey: substitute the simplest value for one dimension at a time (same use form) while the result still fails.
+// rekey: substitute the simplest value for one dimension at a time (same use form) while the result still fails
+// with the same symptom (identical first difference): a different misbehaviour of the complex case keeps its own key.
 func rekey(name, key string, failing map[string]bool) string {
 	cur := name
 	for {
@@ -56,7 +57,7 @@ func rekey(name, key string, failing map[string]bool) string {
 				}
 			}
 			cand := strings.Join(nf, " ")
-			if failing[cand] {
+			if failing[cand] && twin.Symptoms[cand] == twin.Symptoms[name] {
 				next = cand
 			}
 		}
